@@ -1,4 +1,5 @@
-import Sozu.H2Flow.Lemmas
+
+import Sozu.H2Flow.Proofs
 /-
 C14 — sozu respects every HTTP/2 peer limit and keeps transfers moving.
 Only property statements (`C14_*`) and their non-vacuity examples live here.
@@ -27,25 +28,8 @@ theorem C14_frame_size_header_complete (c : Conv) (es : Bool) (hm : 0 < c.mfs) :
     the peer's current SETTINGS_MAX_FRAME_SIZE (RST_STREAM is 4 bytes). -/
 theorem C14_frame_size_run (c : Conn) (ops : List Op) :
     ∀ e ∈ trace c ops, ∀ fs, e.2.2.2 = Out.frames fs →
-      ∀ f ∈ fs, f.payload.length ≤ max e.1.peerMfs 4 := by
-  induction ops generalizing c with
-  | nil => simp [trace]
-  | cons o os ih =>
-    intro e he fs hfs f hf
-    simp only [trace, List.mem_cons] at he
-    rcases he with rfl | he
-    · obtain ⟨sid, incr, rfl, hd, rfl⟩ := step_frames c o fs hfs
-      cases hfind : findStream c sid with
-      | none => simp [writeStream, hfind] at hf
-      | some st =>
-        rw [(writeStream_eq c sid incr st hfind).1] at hf
-        by_cases hr : f.ty = tyRst
-        · have := prepare_rst_len (wsConv c st sid incr) st.k f hf hr
-          simp only; omega
-        · have := prepare_frame_size (wsConv c st sid incr) st.k f hf hr
-          simp only [wsConv] at this ⊢
-          omega
-    · exact ih _ e he fs hfs f hf
+      ∀ f ∈ fs, f.payload.length ≤ max e.1.peerMfs 4 :=
+  C14_frame_size_run_pf c ops
 
 example : ∃ f ∈ (prepare { mfs := 2, window := 10, sid := 1, out := [1, 2, 3, 4, 5], incr := false, abort := false }
     ⟨[.flags true false, .chunk [7, 8, 9]], false⟩).2.1, f.ty = tyContinuation := by decide
@@ -60,59 +44,52 @@ theorem C14_never_exceeds_window_pass (c : Conv) (k : KState) :
     (prepare c k).1.window = c.window - dataBytes (prepare c k).2.1 :=
   ⟨(prepare_window c k).2, (prepare_window c k).1⟩
 
+/-- Frontend position, full strength: on a connection where every stream is
+    opened by the peer (`FrontOnly`: no `start_stream`; that is every connection
+    toward a client, whose streams `create_stream` initialises from the peer's
+    SETTINGS_INITIAL_WINDOW_SIZE), from the initial state and for EVERY schedule
+    of peer SETTINGS (initial-window deltas, frame sizes, stream limits),
+    WINDOW_UPDATEs, stream opens, pushes, closes and write passes: whenever a
+    pass puts DATA on the wire for a stream, the bytes sent so far on that
+    stream do not exceed what the peer granted for it (initial window at open +
+    WINDOW_UPDATEs + SETTINGS deltas), and the connection total does not exceed
+    the connection-level grant. No hypothesis on the schedule. -/
+theorem C14_never_exceeds_window (isClient : Bool) (ops : List Op) (hf : FrontOnly ops) :
+    ∀ e ∈ trace (Conn.new isClient) ops, ∀ sid incr fs,
+      e.2.1 = Op.write sid incr → e.2.2.2 = Out.frames fs → 0 < dataBytes fs →
+      (∀ st, findStream e.2.2.1 sid = some st → (st.sent : Int) ≤ st.credit) ∧
+      (e.2.2.1.connSent : Int) ≤ e.2.2.1.connCredit :=
+  C14_never_exceeds_window_partial_pf (Conn.new isClient) ops (ledgerOk_new isClient)
+    (opensOk_of_frontOnly ops _ hf)
+
+/-- non-vacuity: a front-only schedule with a SETTINGS delta below zero and a
+    later WINDOW_UPDATE in which two passes really put DATA on the wire -/
+example :
+    let ops := [Op.openPeer 1, .push 1 (.chunk [1, 2, 3, 4, 5]), .settingsInitWin 2, .write 1 false,
+                .settingsInitWin 0, .write 1 false, .windowUpdate 1 4, .write 1 false]
+    FrontOnly ops ∧
+    (trace (Conn.new false) ops).map (fun e => match e.2.2.2 with | .frames fs => dataBytes fs | _ => 0)
+      = [0, 0, 0, 2, 0, 0, 0, 2] := by
+  refine ⟨?_, by decide +kernel⟩
+  intro o ho w
+  simp only [List.mem_cons, List.mem_nil_iff, or_false] at ho
+  rcases ho with rfl | rfl | rfl | rfl | rfl | rfl | rfl | rfl <;> simp
+
 /-- For every schedule of peer SETTINGS / WINDOW_UPDATE, pushes, opens, closes
     and write passes: whenever a pass puts DATA on the wire for a stream, the
     bytes sent so far on that stream do not exceed what the peer granted for it
     (its initial window when the stream opened + WINDOW_UPDATEs + SETTINGS
     deltas), and the total does not exceed the connection-level grant.
-    Partial: holds when every locally opened stream starts from a window that
-    does not exceed the peer's SETTINGS_INITIAL_WINDOW_SIZE (`OpensOk`); the
-    code does not establish that for backend streams, see the counterexample. -/
+    General version, from any state with a sound ledger. Partial for the
+    backend position: holds when every locally opened stream starts from a
+    window that does not exceed the peer's SETTINGS_INITIAL_WINDOW_SIZE
+    (`OpensOk`); the code does not establish that for streams toward an h2c
+    backend (open finding F64), see the counterexample. -/
 theorem C14_never_exceeds_window_partial (c : Conn) (ops : List Op) (h0 : LedgerOk c) (hop : OpensOk c ops) :
     ∀ e ∈ trace c ops, ∀ sid incr fs, e.2.1 = Op.write sid incr → e.2.2.2 = Out.frames fs → 0 < dataBytes fs →
       (∀ st, findStream e.2.2.1 sid = some st → (st.sent : Int) ≤ st.credit) ∧
-      (e.2.2.1.connSent : Int) ≤ e.2.2.1.connCredit := by
-  induction ops generalizing c with
-  | nil => simp [trace]
-  | cons o os ih =>
-    intro e he sid incr fs hop' hfs hpos
-    simp only [trace, List.mem_cons] at he
-    rcases he with rfl | he
-    · simp only at hop' hfs ⊢
-      subst hop'
-      obtain ⟨sid', incr', heq, hd, rfl⟩ := step_frames c _ fs hfs
-      injection heq with h1 h2; subst h1; subst h2
-      rw [step_write c sid incr hd]
-      simp only
-      cases hfind : findStream c sid with
-      | none => simp [writeStream, hfind] at hpos
-      | some st =>
-        obtain ⟨e1, e2, e3⟩ := writeStream_eq c sid incr st hfind
-        rw [e1] at hpos
-        have hmem := findStream_mem c sid st hfind
-        have hst := h0.2 st hmem.1
-        have hc := h0.1
-        rw [e2]
-        refine ⟨?_, ?_⟩
-        · intro st' hst'
-          have hfu : findStream
-              { updStream c sid (fun s => { s with
-                    window := s.window - dataBytes (prepare (wsConv c st sid incr) st.k).2.1,
-                    k := (prepare (wsConv c st sid incr) st.k).2.2,
-                    sent := s.sent + dataBytes (prepare (wsConv c st sid incr) st.k).2.1 }) with
-                window := c.window - dataBytes (prepare (wsConv c st sid incr) st.k).2.1,
-                connSent := c.connSent + dataBytes (prepare (wsConv c st sid incr) st.k).2.1 } sid
-              = (findStream c sid).map (fun s => { s with
-                    window := s.window - dataBytes (prepare (wsConv c st sid incr) st.k).2.1,
-                    k := (prepare (wsConv c st sid incr) st.k).2.2,
-                    sent := s.sent + dataBytes (prepare (wsConv c st sid incr) st.k).2.1 }) :=
-            findStream_updStream c sid _ (fun _ => rfl)
-          rw [hfu, hfind] at hst'
-          simp only [Option.map_some, Option.some.injEq] at hst'
-          subst hst'
-          simp only; push_cast; omega
-        · simp only [updStream]; push_cast; omega
-    · exact ih _ (step_ledgerOk c o h0 hop.1) hop.2 e he sid incr fs hop' hfs hpos
+      (e.2.2.1.connSent : Int) ≤ e.2.2.1.connCredit :=
+  C14_never_exceeds_window_partial_pf c ops h0 hop
 
 /-- What the code really does for a stream toward an h2c backend: the `Stream`
     object keeps the window its *frontend* side gave it (`1 << 16` for HTTP/1
@@ -168,28 +145,45 @@ theorem C14_progress_complete (c : Conn) (sid : Nat) (st : Stream) (hf : findStr
     (hmfs : 0 < c.peerMfs) (hd : st.k.dead = false)
     (hs : (bodyLen st.k.blocks : Int) ≤ st.window) (hc : (bodyLen st.k.blocks : Int) ≤ c.window) :
     ∀ st', findStream (writeStream c sid false).1 sid = some st' → st'.k.dead = false →
-      bodyLen st'.k.blocks = 0 ∧ events (writeStream c sid false).2 ++ eventsB st'.k.blocks = eventsB st.k.blocks := by
-  intro st' hst' hdead
-  obtain ⟨e1, e2, _⟩ := writeStream_eq c sid false st hf
-  rw [e2] at hst'
-  have hfu := findStream_updStream c sid (fun s => { s with
-      window := s.window - dataBytes (prepare (wsConv c st sid false) st.k).2.1,
-      k := (prepare (wsConv c st sid false) st.k).2.2,
-      sent := s.sent + dataBytes (prepare (wsConv c st sid false) st.k).2.1 }) (fun _ => rfl)
-  have hst2 : findStream (updStream c sid (fun s => { s with
-      window := s.window - dataBytes (prepare (wsConv c st sid false) st.k).2.1,
-      k := (prepare (wsConv c st sid false) st.k).2.2,
-      sent := s.sent + dataBytes (prepare (wsConv c st sid false) st.k).2.1 })) sid = some st' := hst'
-  rw [hfu, hf] at hst2
-  simp only [Option.map_some, Option.some.injEq] at hst2
-  subst hst2
-  simp only at hdead ⊢
-  obtain ⟨h1, h2⟩ := prepare_exact (wsConv c st sid false) st.k hmfs rfl rfl hd hdead
-  have hev := prepare_events (wsConv c st sid false) st.k hd hdead
-  rw [e1]
-  refine ⟨?_, hev⟩
-  simp only [wsConv] at h1 h2 ⊢
-  omega
+      bodyLen st'.k.blocks = 0 ∧ events (writeStream c sid false).2 ++ eventsB st'.k.blocks = eventsB st.k.blocks :=
+  C14_progress_complete_pf c sid st hf hmfs hd hs hc
+
+/-- Whole runs under a fair credit schedule. Rounds of "anything quiet for the
+    stream (peer WINDOW_UPDATEs on any stream, SETTINGS_INITIAL_WINDOW_SIZE
+    deltas up or down, other SETTINGS, pushes and write passes of the OTHER
+    streams, which eat connection window), then one write pass of the stream";
+    `Fair`: the connection stays up, the stream is not reset by the peer, and
+    whenever body bytes are queued both windows are positive at pass time (how
+    much credit, and when, is the peer's choice). Then, as long as the stream is
+    not reset by the header-list budget:
+    * nothing is lost, duplicated or reordered over the whole run (what was
+      written ++ what is still queued = what was queued), and
+    * every round strictly shrinks the queued body: after `n` rounds at most
+      `body − n` bytes are left, so a body of `n` bytes is completely on the
+      wire after at most `n` rounds (termination measure: queued body bytes);
+    * the rounds are an ordinary run of the connection (`run`). -/
+theorem C14_progress_run (c : Conn) (sid : Nat) (rounds : List (List Op)) (st : Stream)
+    (hfair : Fair c sid rounds) (hf : findStream c sid = some st) (hd : st.k.dead = false) :
+    (∀ st', findStream (fairRun c sid rounds).1 sid = some st' → st'.k.dead = false →
+      events (fairRun c sid rounds).2 ++ eventsB st'.k.blocks = eventsB st.k.blocks ∧
+      bodyLen st'.k.blocks ≤ bodyLen st.k.blocks - rounds.length) ∧
+    (fairRun c sid rounds).1 = run c (rounds.flatMap (· ++ [Op.write sid false])) :=
+  ⟨progress_run sid rounds c st hfair hf hd, fairRun_eq_run sid rounds c hfair⟩
+
+/-- non-vacuity: a 5-byte body against a 2-byte initial window, a SETTINGS delta
+    that takes the window below zero and back, a 1-byte drip; 4 fair rounds -/
+example :
+    let c := run (Conn.new false) [.openPeer 1, .settingsInitWin 2, .push 1 (.chunk [1, 2, 3, 4, 5]), .push 1 (.flags false true)]
+    let rounds : List (List Op) := [[], [.settingsInitWin 0, .settingsInitWin 3], [.windowUpdate 1 1], [.windowUpdate 1 9]]
+    Fair c 1 rounds ∧ events (fairRun c 1 rounds).2 = [some 1, some 2, some 3, some 4, some 5, none] := by
+  refine ⟨?_, by decide +kernel⟩
+  refine ⟨by simp, by decide +kernel, by decide +kernel, ⟨_, rfl, fun _ => by decide +kernel⟩, ?_⟩
+  refine ⟨?_, by decide +kernel, by decide +kernel, ⟨_, rfl, fun _ => by decide +kernel⟩, ?_⟩
+  · intro o ho; simp only [List.mem_cons, List.mem_nil_iff, or_false] at ho; rcases ho with rfl | rfl <;> trivial
+  refine ⟨?_, by decide +kernel, by decide +kernel, ⟨_, rfl, fun _ => by decide +kernel⟩, ?_⟩
+  · intro o ho; simp only [List.mem_cons, List.mem_nil_iff, or_false] at ho; rcases ho with rfl <;> trivial
+  refine ⟨?_, by decide +kernel, by decide +kernel, ⟨_, rfl, fun _ => by decide +kernel⟩, trivial⟩
+  intro o ho; simp only [List.mem_cons, List.mem_nil_iff, or_false] at ho; rcases ho with rfl <;> trivial
 
 example : dataBytes (prepare { mfs := 2, window := 3, sid := 1, out := [], incr := false, abort := false }
     ⟨[.chunk [1, 2, 3, 4, 5], .flags false true], false⟩).2.1 = 3 := by decide
@@ -214,35 +208,8 @@ theorem C14_window_update_rules (c : Conn) (sid inc : Nat) (hi : inc ≤ i32Max)
     (0 < inc → sid ≠ 0 → ∀ st, findStream c sid = some st → st.window + inc ≤ i32Max →
         (windowUpdate c sid inc).2 = none ∧ (windowUpdate c sid inc).1.window = c.window ∧
         (∃ st', findStream (windowUpdate c sid inc).1 sid = some st' ∧ st'.window = st.window + inc) ∧
-        ∀ s ∈ (windowUpdate c sid inc).1.streams, s.sid ≠ sid → s ∈ c.streams) := by
-  have hclamp : clampI32 inc = inc := by simp [clampI32, hi]
-  have hrem : findStream (removeStream c sid) sid = none := by
-    simp [findStream, removeStream, List.find?_eq_none]
-  refine ⟨?_, ?_, ?_, ?_, ?_, ?_⟩
-  · intro h0 hs; simp [windowUpdate, h0, hs]
-  · intro h0 hs st hst; simp only [windowUpdate, h0, hs, hst, if_true, if_false]; exact ⟨by first | rfl | trivial, hrem⟩
-  · intro hp hs ho
-    have : ¬ c.window + (inc : Int) ≤ i32Max := by omega
-    simp [windowUpdate, Nat.pos_iff_ne_zero.mp hp, hs, hclamp, this]
-  · intro hp hs ho
-    simp [windowUpdate, Nat.pos_iff_ne_zero.mp hp, hs, hclamp, ho]
-  · intro hp hs st hst ho
-    have : ¬ st.window + (inc : Int) ≤ i32Max := by omega
-    simp only [windowUpdate, Nat.pos_iff_ne_zero.mp hp, hs, hclamp, hst, this, if_false]
-    exact ⟨by first | rfl | trivial, hrem⟩
-  · intro hp hs st hst ho
-    simp only [windowUpdate, Nat.pos_iff_ne_zero.mp hp, hs, hclamp, hst, ho, if_true, if_false]
-    refine ⟨by first | rfl | trivial, by first | rfl | trivial, ?_, ?_⟩
-    · have hfu := findStream_updStream c sid
-        (fun s => { s with window := s.window + (inc : Int), credit := s.credit + (inc : Int) }) (fun _ => rfl)
-      rw [hst] at hfu
-      exact ⟨_, hfu, rfl⟩
-    · intro s hs' hne
-      simp only [updStream, List.mem_map] at hs'
-      obtain ⟨s0, hs0, rfl⟩ := hs'
-      by_cases h : s0.sid = sid
-      · simp [h] at hne
-      · simpa [h] using hs0
+        ∀ s ∈ (windowUpdate c sid inc).1.streams, s.sid ≠ sid → s ∈ c.streams) :=
+  C14_window_update_rules_pf c sid inc hi
 
 example : (windowUpdate (run (Conn.new false) [.openPeer 1]) 1 7).2 = none := by decide
 
@@ -258,44 +225,13 @@ theorem C14_settings_delta (c : Conn) (v : Nat) :
         c'.streams.map (·.window) = c.streams.map (fun s => s.window + ((v : Int) - c.peerInitWin)) ∧
         c'.streams.map (·.sid) = c.streams.map (·.sid)) ∧
     (updateInitialWindow c v = none ↔
-        v > i32Max ∨ ∃ s ∈ c.streams, s.window + ((v : Int) - c.peerInitWin) > i32Max) := by
-  refine ⟨?_, ?_⟩
-  · intro c' h
-    unfold updateInitialWindow at h
-    split at h
-    · cases h
-    · split at h
-      · injection h with h; subst h
-        simp [initDelta, Function.comp_def]
-      · cases h
-  · unfold updateInitialWindow
-    constructor
-    · intro h
-      split at h
-      · next hv => exact Or.inl hv
-      · split at h
-        · cases h
-        · next hv hall =>
-          right
-          have hall' : (c.streams.all fun s => decide (s.window + initDelta c v ≤ i32Max)) = false := by
-            simpa using hall
-          obtain ⟨s, hs, hgt⟩ := List.all_eq_false.mp hall'
-          exact ⟨s, hs, by simp only [initDelta] at hgt; have := of_decide_eq_false (Bool.eq_false_iff.mpr hgt); omega⟩
-    · intro h
-      rcases h with hv | ⟨s, hs, hgt⟩
-      · simp [hv]
-      · split
-        · rfl
-        · have : (c.streams.all fun s => decide (s.window + initDelta c v ≤ i32Max)) = false :=
-            List.all_eq_false.mpr ⟨s, hs, by simp only [initDelta]; intro hh; have := of_decide_eq_true hh; omega⟩
-          simp [this]
+        v > i32Max ∨ ∃ s ∈ c.streams, s.window + ((v : Int) - c.peerInitWin) > i32Max) :=
+  C14_settings_delta_pf c v
 
 /-- a new peer-initiated stream starts from the peer's current initial window -/
 theorem C14_settings_delta_new_stream (c : Conn) (sid : Nat) (hv : c.peerInitWin ≤ i32Max) :
-    ∃ st ∈ (openPeer c sid).streams, st.sid = sid ∧ st.window = c.peerInitWin := by
-  refine ⟨{ sid, window := clampI32 c.peerInitWin, k := ⟨[], false⟩, sent := 0, credit := c.peerInitWin },
-    by simp [openPeer], rfl, ?_⟩
-  simp [clampI32, hv]
+    ∃ st ∈ (openPeer c sid).streams, st.sid = sid ∧ st.window = c.peerInitWin :=
+  C14_settings_delta_new_stream_pf c sid hv
 
 example : ((updateInitialWindow (run (Conn.new false) [.openPeer 1, .openPeer 3]) 10).map
     fun c => c.streams.map (·.window)) = some [-65525 + 65535, -65525 + 65535] := by decide
@@ -311,42 +247,13 @@ theorem C14_stream_ids_legal (last : Nat) (isClient : Bool) (i n : Nat)
     (h : nextStreamId last isClient = some (i, n)) (he : last % 2 = 0) :
     i ≤ Consts.h2StreamIdMax ∧ (i % 2 = 1 ↔ isClient = true) ∧ last ≤ i ∧ i < n ∧ n % 2 = 0 ∧
     (isClient = true → last < i ∧ 0 < i) ∧
-    ∀ i' n', nextStreamId n isClient = some (i', n') → i < i' := by
-  unfold nextStreamId at h
-  split at h
-  · cases h
-  · split at h
-    · cases h
-    · next h1 h2 =>
-      injection h with h
-      injection h with e1 e2
-      subst e1; subst e2
-      refine ⟨by omega, ?_, ?_, ?_, by omega, ?_, ?_⟩
-      · cases isClient <;> simp [issuedId] <;> omega
-      · cases isClient <;> simp [issuedId]
-      · cases isClient <;> simp [issuedId]
-      · intro hc; subst hc; simp [issuedId]
-      · intro i' n' h'
-        unfold nextStreamId at h'
-        split at h'
-        · cases h'
-        · split at h'
-          · cases h'
-          · injection h' with h'
-            injection h' with e1 e2
-            subst e1
-            cases isClient <;> simp [issuedId] <;> omega
+    ∀ i' n', nextStreamId n isClient = some (i', n') → i < i' :=
+  C14_stream_ids_legal_pf last isClient i n h he
 
 /-- the allocator refuses rather than leave the 31-bit space -/
 theorem C14_stream_ids_exhaustion (last : Nat) (isClient : Bool) :
-    (∃ p, nextStreamId last isClient = some p) → issuedId last isClient ≤ Consts.h2StreamIdMax := by
-  intro ⟨p, h⟩
-  unfold nextStreamId at h
-  split at h
-  · cases h
-  · split at h
-    · cases h
-    · omega
+    (∃ p, nextStreamId last isClient = some p) → issuedId last isClient ≤ Consts.h2StreamIdMax :=
+  C14_stream_ids_exhaustion_pf last isClient
 
 example : nextStreamId 0 true = some (1, 2) ∧ nextStreamId 2 true = some (3, 4) ∧
     nextStreamId 2147483646 true = some (2147483647, 2147483648) ∧ nextStreamId 2147483648 true = none := by decide
@@ -355,14 +262,8 @@ example : nextStreamId 0 true = some (1, 2) ∧ nextStreamId 2 true = some (3, 4
     SETTINGS_MAX_CONCURRENT_STREAMS allows. -/
 theorem C14_concurrent_streams (c : Conn) (w0 : Nat) (sid : Nat) (h : (openLocal c w0).2 = some sid) :
     (openLocal c w0).1.streams.length ≤ c.peerMaxStreams ∧
-    (openLocal c w0).1.streams.length = c.streams.length + 1 := by
-  unfold openLocal at h ⊢
-  split
-  · next hge => simp [hge] at h
-  · next hlt =>
-    split
-    · next hn => simp [hlt, hn] at h
-    · simp; omega
+    (openLocal c w0).1.streams.length = c.streams.length + 1 :=
+  C14_concurrent_streams_pf c w0 sid h
 
 example : (openLocal { Conn.new true with peerMaxStreams := 1 } 65535).2 = some 1 ∧
     (openLocal (openLocal { Conn.new true with peerMaxStreams := 1 } 65535).1 65535).2 = none := by decide
@@ -378,11 +279,8 @@ example : (openLocal { Conn.new true with peerMaxStreams := 1 } 65535).2 = some 
     the `i32::MAX` saturation). -/
 theorem C14_wu_replenish_ledger (icw ms : Nat) (ops : List ROp) :
     let r := rrun (Recv.new icw ms) ops
-    r.consumed = r.announced + sumK r.pending 0 + r.since + r.lost ∧ r.since ≤ icw / 2 := by
-  have h := rrun_ok (Recv.new icw ms) ops (recvOk_new icw ms)
-  obtain ⟨⟨_, hc, hs⟩, hi⟩ := h
-  refine ⟨hc, ?_⟩
-  rw [hi] at hs; exact hs
+    r.consumed = r.announced + sumK r.pending 0 + r.since + r.lost ∧ r.since ≤ icw / 2 :=
+  C14_wu_replenish_ledger_pf icw ms ops
 
 /-- Hence, as long as the bounded WINDOW_UPDATE queue never dropped or cut a
     connection-level credit, what the peer has consumed of sozu's connection
@@ -392,10 +290,8 @@ theorem C14_wu_replenish_ledger (icw ms : Nat) (ops : List ROp) :
 theorem C14_wu_replenish_partial (icw ms : Nat) (ops : List ROp)
     (hl : (rrun (Recv.new icw ms) ops).lost = 0) :
     let r := rrun (Recv.new icw ms) ops
-    r.consumed - (r.announced + sumK r.pending 0) ≤ icw / 2 ∧ icw / 2 ≤ icw := by
-  have h := C14_wu_replenish_ledger icw ms ops
-  simp only at h ⊢
-  omega
+    r.consumed - (r.announced + sumK r.pending 0) ≤ icw / 2 ∧ icw / 2 ≤ icw :=
+  C14_wu_replenish_partial_pf icw ms ops hl
 
 /-- The excluded point is real in the model: with the queue full of stream
     entries, a connection-level credit is silently dropped and those bytes of
@@ -416,42 +312,10 @@ example : (rrun (Recv.new 65535 100) [.data 1 10 true false, .data 3 40000 false
 theorem C14_wu_replenish_stream (r : Recv) (sid inc : Nat) (hn : (r.pending.map (·.1)).Nodup) :
     sumK (queueWu r sid inc).1.pending sid + (queueWu r sid inc).2 = sumK r.pending sid + inc ∧
     (∀ k, k ≠ sid → sumK (queueWu r sid inc).1.pending k = sumK r.pending k) ∧
-    (r.pending.length < r.maxPending → sumK r.pending sid + inc ≤ i32Max → (queueWu r sid inc).2 = 0) := by
-  obtain ⟨_, h2, h3, _⟩ := queueWu_spec r sid inc hn
-  refine ⟨h2, h3, ?_⟩
-  intro hlen hsum
-  unfold queueWu
-  cases hf : r.pending.find? (·.1 = sid) with
-  | some p =>
-    have h1 := (sumK_replace r.pending sid 0 p hn hf).1
-    simp only; omega
-  | none =>
-    simp only [hlen, if_true]
-    have := sumK_of_not_mem r.pending sid (find?_none_not_mem r.pending sid hf)
-    omega
+    (r.pending.length < r.maxPending → sumK r.pending sid + inc ≤ i32Max → (queueWu r sid inc).2 = 0) :=
+  C14_wu_replenish_stream_pf r sid inc hn
 
 /-! ## HPACK table sizes -/
-
-/-- the signal is never lost: while a change is pending it carries the encoder's
-    size, and when nothing is pending the peer's decoder has been told the
-    encoder's size -/
-def HpInv (h : Hp) : Prop :=
-  match h.pending with
-  | some v => v = h.encSize
-  | none => h.announced = h.encSize
-
-theorem hpStep_inv (h : Hp) (op : HpOp) (hi : HpInv h) : HpInv (hpStep true h op).1 := by
-  cases op with
-  | settings v cap => simp [hpStep, HpInv]
-  | pass headers =>
-    unfold hpStep
-    cases hp : h.pending with
-    | none => simpa [HpInv, hp] using hi
-    | some v =>
-      have hv : v = h.encSize := by simpa [HpInv, hp] using hi
-      cases headers
-      · simpa [HpInv, hp] using hv
-      · simp [HpInv, hv]
 
 /-- Every change of SETTINGS_HEADER_TABLE_SIZE is signalled at the start of the
     next header block, whatever header-less passes (SETTINGS ACK, DATA-only,
@@ -466,22 +330,8 @@ theorem C14_hpack_size_update_signalled (ops : List HpOp) :
      (hpStep true h (.pass true)).1.pending = none ∧
      (hpStep true h (.pass true)).1.announced = (hpStep true h (.pass true)).1.encSize ∧
      (hpStep true h (.pass true)).2 = h.pending ∧
-     (hpStep true h (.pass false)).1 = h ∧ (hpStep true h (.pass false)).2 = none) := by
-  have hinv : ∀ (ops : List HpOp) (h : Hp), HpInv h → HpInv (hpRun true h ops) := by
-    intro ops
-    induction ops with
-    | nil => intro h hi; exact hi
-    | cons o os ih => intro h hi; exact ih _ (hpStep_inv h o hi)
-  have hi := hinv ops Hp.init (by simp [HpInv, Hp.init])
-  refine ⟨hi, ?_⟩
-  simp only
-  cases hp : (hpRun true Hp.init ops).pending with
-  | none =>
-    have : (hpRun true Hp.init ops).announced = (hpRun true Hp.init ops).encSize := by simpa [HpInv, hp] using hi
-    simp [hpStep, hp, this]
-  | some v =>
-    have hv : v = (hpRun true Hp.init ops).encSize := by simpa [HpInv, hp] using hi
-    simp [hpStep, hp, hv]
+     (hpStep true h (.pass false)).1 = h ∧ (hpStep true h (.pass false)).2 = none) :=
+  C14_hpack_size_update_signalled_pf ops
 
 /-- moving the signal into the per-pass converter without giving it back loses it
     in the first header-less pass: the peer keeps 4096 while the encoder uses 0 -/
